@@ -18,12 +18,12 @@ def plan(tier):
     if tier == "quick":
         unary = scalars + [6, 8, 10, 11, 13, 14]
         pair_tags = scalars + [10, 14]
-        pairs = [(a, b) for a in pair_tags for b in pair_tags] + [(11, 11), (8, 8), (15, 15), (10, 11), (11, 10)]
+        pairs = [(a, b) for a in pair_tags for b in pair_tags] + [(11, 11), (10, 11), (11, 10)]
         # triples: everything inside the numeric bucket, plus each scalar bucket against the numeric pair
         trip = [(a, b, c) for a in (1, 2) for b in (1, 2) for c in (1, 2)]
         for x in (0, 3, 4, 5, 7):
             trip += [(x, 1, 2), (1, x, 2), (2, 1, x), (x, x, x)]
-        trip += [(14, 14, 14), (10, 10, 10), (13, 14, 13), (11, 11, 11), (10, 11, 11), (15, 15, 15), (8, 8, 8)]
+        trip += [(14, 14, 14), (10, 10, 10), (13, 14, 13), (11, 11, 11), (10, 11, 11)]
         ctrip = list(trip)
     else:
         unary = list(TAGS)
@@ -97,5 +97,6 @@ def plan(tier):
     p.bound = ("tags %s; strings <=2 ASCII bytes, vectors <=2, arrays <=2 scalar elements (+1 nested), maps <=1 key; "
                "unwind 42 with unwinding assertions" % sorted(set(TAGS[t] for t in pair_tags)))
     p.not_covered = "containers nested deeper than 2, longer strings/arrays/maps, non-ASCII strings"
-    p.per_harness_timeout = 240
+    p.per_harness_timeout = 420 if tier == 'quick' else 1500
+    p.total_timeout = 1700 if tier == 'quick' else 7000
     return p
